@@ -33,7 +33,10 @@ Definition evk_eqb (a b : evk) : bool :=
 (* how a handler body / a generator step ends *)
 Inductive res := RYield | RRet | RExit (c : option Z) | RKbd | RErr.
 (* thr = true: the call is made by a second thread which the handler joins *)
-Inductive act := AFire (thr : bool) (n : nat) | AStop (thr : bool) (c : option Z).
+(* AStopChild: stop(c) called on a registered CHILD component -- a manager of its own on which run() was never
+   invoked -- from the loop's thread or (thr) a joined second thread *)
+Inductive act := AFire (thr : bool) (n : nat) | AStop (thr : bool) (c : option Z)
+               | AStopChild (thr : bool) (c : option Z).
 Definition seg := (list act * res)%type.
 Inductive body := BPlain (a : list act) (r : res) | BGen (segs : list seg).
 Definition prog := evk -> list body.          (* handlers of an event, in priority order *)
@@ -47,7 +50,7 @@ Definition prog := evk -> list body.          (* handlers of an event, in priori
              entry behaves like PJoin there)
      PLate   right after fire(stopped) has woken the loop *)
 Inductive pmode := PJoin | PEarly | PLate.
-Inductive xact := XNop | XFire (n : nat) | XStop (m : pmode) (c : option Z).
+Inductive xact := XNop | XFire (n : nat) | XStop (m : pmode) (c : option Z) | XStopChild (c : option Z).
 
 Inductive tr :=
 | TFire (k : evk)                    (* ghost: event appended to the queue *)
@@ -62,7 +65,8 @@ Inductive tr :=
 | TOut (c : option (option Z))       (* run()/top-level stop() returned (None) or raised SystemExit c (Some c) *)
 | TLen (n : nat)                     (* len(manager) observed by the harness *)
 | TLate                              (* the stopping second thread is pre-empted after fire(stopped) *)
-| TEarly.                            (* ... before fire(stopped) *)
+| TEarly                             (* ... before fire(stopped) *)
+| TChildStop (c : option Z).         (* stop(c) was called on a child component *)
 
 Definition task := (nat * nat * list seg)%type.     (* generator id, next step index, remaining steps *)
 
@@ -97,6 +101,9 @@ Definition set_bad s := mk (running s) (executing s) (xcode s) (fifo s) (heap s)
 
 Definition init (sc : list (list nat)) (xs : list xact) : st :=
   mk false false None [] [] 0 [] 0 sc xs [] [] None false.
+
+(* a registered child component: a manager in the state in which __init__ leaves it *)
+Definition never_run : st := init [] [].
 
 Definition qlen (s : st) : nat := length (fifo s) + length (heap s).     (* len(self._queue) *)
 Definition logt (x : tr) (s : st) : st := set_trace (trace s ++ [x]) s.
@@ -155,6 +162,12 @@ Definition exec_act (a : act) (s : st) : st * option exn :=
       (s', if raised then match c with Some z => Some (XStopped z) | None => None end else None)
   | AStop true c =>
       let '(s', raised) := req_stop c s in (t2_raise c raised s', None)
+  | AStopChild thr c =>
+      (* Manager.stop on the child's own state: it is not running, so (C08_idle_stop) nothing happens and nothing
+         is raised; the root's loop state is not touched *)
+      let '(_, raised) := stop c never_run in
+      (logt (TChildStop c) s,
+       if raised && negb thr then match c with Some z => Some (XStopped z) | None => None end else None)
   end.
 
 Fixpoint exec_acts (l : list act) (s : st) : st * option exn :=
@@ -197,6 +210,7 @@ Definition do_xact (timed : bool) (x : xact) (s : st) : st * bool :=
   match x with
   | XNop => (s, false)
   | XFire n => (fire (KUser n) s, true)
+  | XStopChild c => let '(_, _) := stop c never_run in (logt (TChildStop c) s, false)
   | XStop m c =>
       let w := running s in
       let joined := let '(s', raised) := req_stop c s in (t2_raise c raised s', w) in
